@@ -56,7 +56,7 @@ def patterns(n):
 
 
 def bounds(tier):
-    return {"max_len": 160 if tier == "thorough" else 48, "keys": sorted(keys(tier)), "methods": ["aes", "xor", "best"],
+    return {"max_len": 1040 if tier == "thorough" else 48, "keys": sorted(keys(tier)), "methods": ["aes", "xor", "best"],
             "patterns": sorted(patterns(1))}
 
 
